@@ -15,6 +15,7 @@ mod k8;
 mod k9;
 mod k10;
 mod k11;
+mod bfx;
 mod inputs;
 mod planners;
 mod refdft;
@@ -60,6 +61,7 @@ fn main() {
         "k9" => k9::run(rest),
         "k10" => k10::run(rest),
         "k11" => k11::run(rest),
+        "bfx" => bfx::run(rest),
         "s02t" => s02t::run(rest),
         "s04" => s04::run(rest),
         "s05" => s05::run(rest),
